@@ -89,13 +89,18 @@ func Gnm(dst GraphBuilder, n, m int, src rand.Source) error {
 
 	hasEdge := dst.HasEdgeBetween
 	d, isDirected := dst.(graph.Directed)
+	forward, backward := m, 0
 	if isDirected {
-		m /= 2
+		// The m edges of a directed graph are shared between
+		// the forward and backward directions, with the odd
+		// edge going forward so that the size is exactly m.
+		backward = m / 2
+		forward = m - backward
 		hasEdge = d.HasEdgeFromTo
 	}
 
 	nChoose2 := (n - 1) * n / 2
-	if m < 0 || m > nChoose2 {
+	if m < 0 || forward > nChoose2 {
 		return fmt.Errorf("gen: bad size: m=%d", m)
 	}
 
@@ -114,7 +119,7 @@ func Gnm(dst GraphBuilder, n, m int, src rand.Source) error {
 	}
 
 	// Add forward edges for all graphs.
-	for i := 0; i < m; i++ {
+	for i := 0; i < forward; i++ {
 		for {
 			v, w := edgeNodesFor(rnd(nChoose2), nodes)
 			if !hasEdge(w.ID(), v.ID()) {
@@ -128,7 +133,7 @@ func Gnm(dst GraphBuilder, n, m int, src rand.Source) error {
 	if !isDirected {
 		return nil
 	}
-	for i := 0; i < m; i++ {
+	for i := 0; i < backward; i++ {
 		for {
 			v, w := edgeNodesFor(rnd(nChoose2), nodes)
 			if !hasEdge(v.ID(), w.ID()) {
